@@ -119,6 +119,8 @@ func execRules(c *Ctx, full bool) {
 		checkPendingReads(c, "R09h")
 		c.Rule("R09k", ruleTextPartialAnywhere, 1)
 		checkPartialAnywhere(c, "R09k")
+		c.Rule("R09l", "index provenance in the migrate package (same rule as C11/R11f): an index obtained by searching slice B is used to index or slice B only, never a different slice", 6)
+		checkIndexProvenance(c, "R09l")
 	}
 
 	s := loadExecShape(c, "R09a")
